@@ -223,6 +223,10 @@ struct WlanEngine : Engine {
                     // exchanges the tracker abandons, e.g. after a counter restart) and replaced the session's keys: nothing is demanded of the
                     // key the tracker holds from then on. A mere duplicate of the message 4 that completed the last exchange cannot (no message
                     // 1-3 since, so the decrypter holds no partial exchange)
+                    // a message 4 whose replay counter lies beyond the message 3 the tracker holds (a late duplicate from an earlier association of the
+                    // same station, say) may be taken by the decrypter as the completing message, fail verification there and cost it the exchange:
+                    // the tracker gives the attempt up as well
+                    if (!took && r.have && r.stage == 3 && ek.replay > r.rc3) { r.stage = 0; r.have = false; st.inc("probe.ref_m4_beyond_m3_ends_attempt"); }
                     if (took) r.partial_possible = false;      /* the decrypter completed this exchange too and dropped its partial state */
                     else if (r.known && r.partial_possible) { r.known = false; st.inc("probe.ref_key_possibly_superseded"); } }
             }
